@@ -134,16 +134,19 @@ func ParsePHC(s string) (*PHC, error) {
 		return nil, fmt.Errorf("missing required parameters m,t,p or zero values")
 	}
 
-	// Decode salt (expect 16 bytes to fit [16]byte)
+	// Decode salt (expect 16 bytes to fit [16]byte). Decoding straight into the
+	// array would index past its end for a longer salt, so decode first and
+	// check the length before copying.
 	saltB64 := parts[3]
 	var salt [16]byte
-	n, err := base64.RawStdEncoding.Decode(salt[:], []byte(saltB64))
+	saltBytes, err := base64.RawStdEncoding.DecodeString(saltB64)
 	if err != nil {
 		return nil, fmt.Errorf("invalid salt: %w", err)
 	}
-	if n != 16 {
-		return nil, fmt.Errorf("invalid salt length: got %d, want 16", n)
+	if len(saltBytes) != len(salt) {
+		return nil, fmt.Errorf("invalid salt length: got %d, want %d", len(saltBytes), len(salt))
 	}
+	copy(salt[:], saltBytes)
 
 	// Decode hash
 	hashB64 := parts[4]
